@@ -65,7 +65,7 @@ def tree_layout(ts):
         ('sub', 'd', 0), ('sub/index.html', 'f', 400), ('sub/index.html.gz', 'f', 100), ('sub/a.css', 'f', 100),
         ('sub/deep', 'd', 0), ('sub/deep/x.txt', 'f', 100), ('sub/secret.txt', 'f', 100),
         ('noindex', 'd', 0), ('noindex/y.txt', 'f', 100),
-        ('sp ace', 'd', 0), ('sp ace/\u00fc.txt', 'f', 100), ('\u65e5\u672c', 'f', 100),
+        ('sp ace', 'd', 0), ('sp ace/\u00fc.txt', 'f', 100), ('new\nline.txt', 'f', 100), ('nl\n', 'd', 0), ('nl\n/index.html', 'f', 100), ('\u65e5\u672c', 'f', 100),
         ('back\\slash.txt', 'f', 100), ('..\\up', 'f', 100), ('%2e%2e', 'd', 0), ('%2e%2e/in.txt', 'f', 100),
         ('..%2fx', 'f', 100), ('...', 'd', 0), ('.../t.txt', 'f', 100), ('..a', 'f', 100), ('a..', 'f', 100),
         ('.hidden', 'f', 100), ('@@at.txt', 'f', 100), ('q?x', 'f', 100), ('semi;colon', 'f', 100), ('c:', 'd', 0),
@@ -413,8 +413,6 @@ def oracle(case, got, tree):
             if not text.startswith(pfx):
                 return None if out == 'notfound' else {'detail': 'path outside the mount point', 'expected': {'out': 'notfound'}}
             rest = text[len(pfx):]
-            if '\n' in rest and out == 'notfound':
-                return None             # the route does not match across a newline (F-C01b, recorded under C01)
         else:
             rest = text
         segs = normalise(rest)
